@@ -291,6 +291,35 @@ def _materialize(prog: Program, col: Collector, refs: Refs):
               f"{why}: a lazy integer input is left in place or replaced by an index range of another name / size, so the materialised function differs", f.loc(lp))
 
 
+def _packed_in_layout_order(prog: Program, col: Collector, refs: Refs):
+    """tensor_to_funsor wraps the array as it is (only size-1 dims are dropped), so the inputs it declares must be listed in the order
+    of the array's dims: the loop that fills the inputs mapping walks the positions of `x.shape`.  Walking the user's dim_to_name
+    mapping instead declares the inputs in whatever order the mapping was written in, while the data keep their layout."""
+    f = require_func(prog, "funsor.tensor::tensor_to_funsor")
+    xp = f.positional[0]
+    rets = [r for r in walk_no_nested(f.node) if isinstance(r, ast.Return) and isinstance(r.value, ast.Call) and (refs.resolve(r.value.func) or "") == "funsor.tensor.Tensor"
+            and len(r.value.args) >= 2 and isinstance(r.value.args[1], ast.Name)]
+    done = False
+    for r in rets:
+        M = r.value.args[1].id
+        stores = [t for t in walk_no_nested(f.node) if isinstance(t, ast.Subscript) and isinstance(t.ctx, ast.Store) and norm(t.value) == M]
+        for t in stores:
+            loops = [a for a in f.module.ancestors(t) if isinstance(a, ast.For)]
+            if not loops:
+                continue
+            done = True
+            it = loops[0].iter
+            over_shape = any(isinstance(y, ast.Attribute) and y.attr == "shape" and norm(y.value) == xp for y in ast.walk(it))
+            over_mapping = any(isinstance(y, ast.Call) and isinstance(y.func, ast.Attribute) and y.func.attr in ("items", "keys", "values") for y in ast.walk(it)) \
+                or any(isinstance(y, ast.Name) and y.id in f.positional[2:] for y in ast.walk(it))
+            col.check(over_shape and not over_mapping, f"{f.fq}::for {norm(loops[0].target)} in {norm(it)[:50]}",
+                      f"the inputs are declared while walking the dims of `{xp}.shape` from the left",
+                      f"`{M}` is filled while iterating `{norm(it)[:50]}`: the declared order of the inputs follows that iteration, not the layout of `{xp}` (which is wrapped "
+                      "unchanged), so a mapping written in another order than ascending dims attaches each name to another dim's data", f.loc(loops[0]))
+    if not done:
+        col.unresolved(f"{f.fq}::packing loop", "no loop that fills the inputs of the returned Tensor found", f.loc())
+
+
 def run(prog: Program, col: Collector, tier: str, refs: Optional[Refs] = None, cat: Optional[Catalogue] = None):
     refs = refs or Refs(prog)
     col.rule("R19.1", "a permutation [S.index(e) for e in T] is built with S = the current layout of the permuted array", floor=3)
@@ -301,4 +330,13 @@ def run(prog: Program, col: Collector, tier: str, refs: Optional[Refs] = None, c
     _integer_clauses(prog, col, refs)
     col.rule("R19.4", "materialize substitutes an arange for every integer-typed input", floor=1)
     _materialize(prog, col, refs)
+    col.rule("R19.5", "to_funsor declares the inputs in the order of the array's dims", floor=1)
+    _packed_in_layout_order(prog, col, refs)
+    # renaming of the inputs of an evaluated tensor (what `x(i='j', j='k')` / align-by-substitution relies on): shared with C04
+    cat = cat or Catalogue(prog, refs)
+    from . import c04
+    col.rule("R19.6", "a renaming set that is filtered by a test on itself is filtered to a fixpoint (shared with C04 R04.19)", floor=0)
+    c04._self_referential_filter(prog, col, refs, cat)
+    col.rule("R19.7", "an input is renamed to the name of a substituted value only after that name is tested against the term's own inputs (shared with C04 R04.9)", floor=2)
+    c04._rename_clash(prog, col, refs, cat, c04._subs_collections(prog, refs, cat))
     return col
